@@ -284,6 +284,11 @@ struct Run {
     void apply(const Op& o)
     {
         NG& T = m.g[m.top()];
+        // The alphabet is computed from the lazy discipline's model. Trim may legitimately remove a different set in
+        // another discipline, after which a Ref named by the op may already be destroyed here: such an op is skipped.
+        if ((o.kind == REM || o.kind == FEE || o.kind == DESTROY) && !(m.live() >> o.a & 1)) return;
+        if (o.kind == DEP && (!(m.live() >> o.a & 1) || !(m.live() >> o.b & 1))) return;
+        if (o.kind == ADD && m.nslots() >= cfg.max_slots) return;
         st.mutator_calls++;
         switch (o.kind) {
         case ADD: {
